@@ -2297,6 +2297,8 @@ class System(object, metaclass=SystemMetaclass):
         self._jacobian = self._assembled_jac = None
         self._jac_ofs_cache = None
         self._jac_wrts_cache = {}
+        # the matvec scopes hold the names of the connected inputs of the previous setup
+        self._scope_cache = {}
 
     def _setup_procs(self, pathname, comm, prob_meta):
         """
